@@ -92,7 +92,12 @@ class _Fault(Exception):
 
 
 _TYPES = {'int': int, 'str': str, 'tuple': tuple, 'list': list, 'bool': bool, 'float': float, 'dict': dict,
-          'MutableMapping': dict, 'Mapping': dict}
+          'MutableMapping': dict, 'Mapping': dict,
+          'set': set, 'frozenset': frozenset}
+import collections.abc as _cabc
+_TYPES.update({'MutableMapping': _cabc.MutableMapping, 'Mapping': _cabc.Mapping, 'Sequence': _cabc.Sequence,
+               'abc.MutableMapping': _cabc.MutableMapping, 'abc.Mapping': _cabc.Mapping,
+               'abc.Sequence': _cabc.Sequence, 'Iterable': _cabc.Iterable})
 
 
 class Sym(str):
@@ -313,9 +318,10 @@ class MiniEval:
                     return False
                 left = right
             return True
-        if isinstance(e, ast.Call) and isinstance(e.func, ast.Attribute) and isinstance(e.func.value, ast.Name) \
-                and isinstance(self.env.get(e.func.value.id), Obj) and norm(e.func) not in self.env:
-            obj = self.env[e.func.value.id]
+        if isinstance(e, ast.Call) and isinstance(e.func, ast.Attribute) and \
+                isinstance(e.func.value, (ast.Name, ast.Attribute)) \
+                and isinstance(self.env.get(norm(e.func.value)), Obj) and norm(e.func) not in self.env:
+            obj = self.env[norm(e.func.value)]
             if e.func.attr not in obj.methods:
                 self.fail(e, f'(no method {e.func.attr} on the environment object {obj!r})')
             args_, kws_ = self._call_args(e)
@@ -354,25 +360,11 @@ class MiniEval:
         if isinstance(e, ast.Attribute) and isinstance(e.value, ast.Name) and \
                 isinstance(self.env.get(e.value.id), Obj) and e.attr in self.env[e.value.id].attrs:
             return self.env[e.value.id].attrs[e.attr]
+        if isinstance(e, ast.Attribute) and isinstance(self.env.get(norm(e.value)), Obj) and \
+                e.attr in self.env[norm(e.value)].attrs:
+            return self.env[norm(e.value)].attrs[e.attr]
         if isinstance(e, ast.Call) and norm(e.func) in self.env and callable(self.env[norm(e.func)]):
-            args_ = []
-            for a in e.args:
-                if isinstance(a, ast.Starred):
-                    sv = self.ev(a.value)
-                    if not isinstance(sv, (tuple, list)):
-                        raise _Fault('TypeError')
-                    args_.extend(sv)
-                else:
-                    args_.append(self.ev(a))
-            kws_ = {}
-            for k in e.keywords:
-                if k.arg is None:
-                    dv = self.ev(k.value)
-                    if not isinstance(dv, dict):
-                        raise _Fault('TypeError')
-                    kws_.update(dv)
-                else:
-                    kws_[k.arg] = self.ev(k.value)
+            args_, kws_ = self._call_args(e)
             try:
                 return self.env[norm(e.func)](*args_, **kws_)
             except (_Ret, _Raised, _Fault, _Break, _Continue, AnalysisError):
@@ -467,9 +459,9 @@ class MiniEval:
                 names = [x for x in (t.elts if isinstance(t, ast.Tuple) else [t])]
                 types = []
                 for n in names:
-                    if not (isinstance(n, ast.Name) and n.id in _TYPES):
+                    if not (isinstance(n, (ast.Name, ast.Attribute)) and norm(n) in _TYPES):
                         self.fail(e, '(isinstance against an unknown type)')
-                    types.append(_TYPES[n.id])
+                    types.append(_TYPES[norm(n)])
                 return isinstance(v, tuple(types))
             if e.func.id == 'len' and len(e.args) == 1:
                 v = self.ev(e.args[0])
@@ -526,9 +518,9 @@ class MiniEval:
         for k in e.keywords:
             if k.arg is None:
                 dv = self.ev(k.value)
-                if not isinstance(dv, dict):
+                if not isinstance(dv, _cabc.Mapping) or any(not isinstance(k_, str) for k_ in dv):
                     raise _Fault('TypeError')
-                kws_.update(dv)
+                kws_.update(dict(dv))
             else:
                 kws_[k.arg] = self.ev(k.value)
         return args_, kws_
@@ -693,7 +685,8 @@ class MiniEval:
                 self.assign(st.target, self.ev(ast.BinOp(left=load, op=st.op, right=st.value)))
             elif isinstance(st, ast.For) and not st.orelse:
                 seq = self.ev(st.iter)
-                if not isinstance(seq, (list, tuple, set, frozenset, dict, str)):
+                if not isinstance(seq, (list, tuple, set, frozenset, dict, str, _cabc.Mapping)) and \
+                        type(seq).__name__ != 'generator':
                     raise _Fault('TypeError')
                 for item in list(seq):
                     self.assign(st.target, item)
